@@ -4,11 +4,13 @@ import NxProofs.NexErrors
 import NxProofs.NexDateTime
 import NxProofs.NexStationURL
 import NxProofs.NexObjWalk
+import NxProofs.NexHolderPoly
 /-!
 # C15 — NEX value encodings are lossless
 
 Models: `NxModel/Nex/Streams.lean` (stream primitives), `Common.lean` (Result, Structure levels, DataHolder),
-`Errors.lean` (code ↔ name table), `DateTime.lean`, `StationURL.lean`. Statements only; proofs in
+`Errors.lean` (code ↔ name table), `DateTime.lean`, `StationURL.lean`, `HolderPoly.lean` (holders over a class
+hierarchy and a registry). Statements only; proofs in
 `NxProofs/Nex{Streams,Common,Errors,DateTime}.lean`.
 
 Every round trip has the exact-consumption form: if the writer succeeds with bytes `b` (it fails exactly
@@ -139,6 +141,52 @@ theorem structure_level_roundtrip {α : Type} (header : Bool) (version : Nat) (b
 
 example : wAnyData (some "NullData") [0, 0, 0, 0, 0, 0, 0, 0, 0, 0] =
     .ok ([9, 0, 78, 117, 108, 108, 68, 97, 116, 97, 0, 14, 0, 0, 0, 10, 0, 0, 0] ++ [0, 0, 0, 0, 0, 0, 0, 0, 0, 0]) := by decide
+
+/-! ## polymorphic data holders over a class hierarchy and a registry (`NxModel/Nex/HolderPoly.lean`)
+
+An object of ANY class of ANY class table (single inheritance below `Structure`, every class with its own level),
+written through a holder and read back under ANY registry in which the object's own class name maps to its class,
+comes back as an object of the same class with all levels of its hierarchy, and exactly the written bytes are
+consumed. No hypothesis mentions the other registrations: registered ancestors (before or after the class),
+descendants, siblings, three and more levels are all covered. -/
+
+open HolderPoly in
+theorem holder_poly_roundtrip (tbl : ClassTable) (reg : Registry) (header : Bool) (o : Obj) (d : ClassDef)
+    (hd : tbl[o.cls]? = some d) (hreg : lookupLast d.name reg = some o.cls) (hwf : o.WellFormed tbl)
+    {b : Bytes} (h : wHolder tbl header o = .ok b) (rest : Bytes) :
+    rHolder tbl reg header (b ++ rest) = .ok (o.seen header, rest) :=
+  rHolder_wHolder tbl reg header o d hd hreg hwf h rest
+
+/-- the same with the registry described the way applications build it: pairwise different names, the object's
+class registered under its own name somewhere in the list — and therefore for every order of the `register` calls -/
+theorem holder_poly_roundtrip_any_order (tbl : HolderPoly.ClassTable) (reg reg' : HolderPoly.Registry) (header : Bool)
+    (o : HolderPoly.Obj) (d : HolderPoly.ClassDef)
+    (hd : tbl[o.cls]? = some d) (hnd : (reg.map (·.1)).Nodup) (hm : (d.name, o.cls) ∈ reg) (hp : reg.Perm reg')
+    (hwf : o.WellFormed tbl) {b : Bytes} (h : HolderPoly.wHolder tbl header o = .ok b) (rest : Bytes) :
+    HolderPoly.rHolder tbl reg' header (b ++ rest) = .ok (o.seen header, rest) :=
+  HolderPoly.rHolder_wHolder tbl reg' header o d hd
+    ((HolderPoly.lookupLast_perm hnd hp).trans (HolderPoly.lookupLast_of_mem_nodup hnd hm)) hwf h rest
+
+/-- the registry is a dict: with pairwise different names, a name maps to a class iff that pair was registered -/
+theorem holder_registry_lookup {name : String} {c : Nat} {reg : HolderPoly.Registry} (hnd : (reg.map (·.1)).Nodup) :
+    HolderPoly.lookupLast name reg = some c ↔ (name, c) ∈ reg := HolderPoly.lookupLast_eq_some_iff hnd
+
+section HolderPolyExamples
+open HolderPoly
+/-- Shape ← Circle ← Disc, own levels of 2, 3 and 1 bytes -/
+def exTbl : ClassTable := [⟨"Shape", none, 2⟩, ⟨"Circle", some 0, 3⟩, ⟨"Disc", some 1, 1⟩]
+def exCircle : Obj := ⟨1, [(1, [7, 8]), (0, [1, 2, 3])]⟩
+
+example : hierarchy exTbl 2 = [0, 1, 2] := by decide
+example : exCircle.WellFormed exTbl := by unfold Obj.WellFormed; decide
+/-- base registered before derived, derived before base, the base not at all: the Circle comes back a Circle -/
+example : ∀ reg ∈ [[("Shape", 0), ("Circle", 1), ("Disc", 2)], [("Disc", 2), ("Circle", 1), ("Shape", 0)], [("Circle", 1)]],
+    (wHolder exTbl true exCircle >>= fun b => rHolder exTbl reg true (b ++ [9])) = .ok (exCircle, [9]) := by decide
+/-- what the round trip excludes: a frame announcing the BASE class's name for the same payload decodes to a Shape
+without the Circle's level (nothing raises, the frame is consumed exactly) -/
+example : (wStruct true exCircle.levels >>= fun p => wAnyData (some "Shape") p >>= fun b =>
+    rHolder exTbl [("Shape", 0), ("Circle", 1)] true (b ++ [9])) = .ok (⟨0, [(1, [7, 8])]⟩, [9]) := by decide
+end HolderPolyExamples
 
 /-! ## DateTime: calendar accessors and Unix time -/
 
